@@ -253,6 +253,52 @@ claim('C30',
       'TLA+ enumeration of points x directions with exact rational derivatives + complex-step replay', '6/C30, 7')
 
 
+claim('C11',
+      'spec/mech/Jacobian.tla: the operator of a layout as the SUM of placed sub-Jacobians (dense, rows/cols, diagonal, scipy coo with a duplicated '
+      'entry, csr, csc; column map through src_indices with repeats and negatives; unit factor) with one representation per format and its update '
+      'rule; TLC checks Denotes, FormatsAgree, Adjoint on every reachable state of Linearize/SetComplex/Apply histories; -simulate histories with '
+      'exact expected matrices and (complex) products are replayed on real Problems per format x solver placement through run_linearize / '
+      'run_apply_linear / set_complex_step_mode, reading back the assembled matrices.',
+      'Seeded layouts with one source + two components; rows/cols duplicates and DirectSolver+csr are refused by OpenMDAO (counted); coo exercised via a '
+      'patched jacobian table; histories sampled.',
+      'TLA+ operator/format specification + TLC (invariants + simulation) + history replay into every Jacobian format', '5.8, 6/C11')
+
+claim('C12',
+      'spec/mech/Approx.tla: the exact rational quotient each scheme DEFINES (forward/backward/central x abs/rel/rel_avg/rel_element/rel_legacy, '
+      'minimum_step; formal step symbol) for polynomial functions, with TruncationLaw / CsExact / StepLaws and a ReadOnly action property; every '
+      'TLC scenario is replayed into real components, implicit components, colored approximations, approx_totals and semi-totals: each '
+      'approximated Jacobian entry is compared with the exact rational at round-off tolerance, and the model vectors are compared bit-for-bit '
+      'before and after every approximation.',
+      'Polynomials of degree <= 2 with <= 3 inputs; non-polynomial truncation behaviour, MPI/parallel FD and directional approximations out of scope. '
+      'One known finding (colored FD with a relative step_calc).',
+      'TLA+/TLC scenario enumeration with an exact oracle + replay + bit-exact side-effect check', '5.8, 6/C12')
+
+claim('C14',
+      'spec/mech/Expr.tla: expression trees over ExecComp\'s function table, the symbolic derivative D(e, x) and domain conditions; TLC checks the '
+      'laws of D (incl. exact agreement with dual-number differentiation over the rationals on the algebraic fragment) on every tree with at most two '
+      'operator nodes plus seeded deeper trees; every tree is rendered as an ExecComp expression and executed for shapes x has_diag_partials x '
+      'do_coloring x shape_by_conn at two points; outputs, totals, sub-Jacobians and declared sparsity are compared with the value and derivative '
+      'trees evaluated by NumPy.',
+      'NumPy primitives are the trusted base; elementwise expressions; configurations per tree sampled; points keep a margin from kinks and poles.',
+      'TLA+ expression/derivative spec + TLC (exhaustive + simulate) + replay into ExecComp', '5.8, 6/C14, 7')
+
+claim('C33',
+      'spec/mech/Vector.tla: the NumPy semantics of OpenMDAO\'s vector on exact rationals (set_val, set_vec, +=, -=, *=, add_scal_vec, named and '
+      'indexed writes, scale_to_norm / scale_to_phys fwd and rev with per-entry (a0, a1) incl. negative a1); TLC checks ViewsTile, ScaleRoundTrip, '
+      'DualPairing, NormLaw, NamedWriteFrame, OtherUntouched exhaustively to depth 2 and along random histories; every history is replayed on the '
+      'root vectors of a real Problem with flat data, views, dot and norm compared after every action.',
+      'Real mode only; input vectors and rev-scaling of nonlinear vectors outside; histories sampled.',
+      'TLA+ exact-rational vector semantics + TLC (exhaustive depth 2 + simulation) + history replay', '5.8, 6/C33')
+
+claim('C34',
+      'The TLC-generated trees and derivative trees of Expr.tla rendered as Python source: NumPy functions wrapped with openmdao.func_api for '
+      'ExplicitFuncComp / ImplicitFuncComp (cs or jax, coloring, jit) and JaxExplicitComponent / JaxImplicitComponent subclasses; outputs/residuals, '
+      'totals and sub-Jacobians are compared at two points with the spec\'s trees evaluated by NumPy (1e-9 relative, jax in float64).',
+      'Scenario selection sampled; cs scenarios exclude abs/arctan2; non-smooth trees at a single point where sparsity is sampled at the first '
+      'linearization; implicit components: residuals and partials only.',
+      'TLA+ Expr.tla trees + TLC + generated-source replay into func-API and jax components', '6/C34, 7')
+
+
 def main():
     checks = []
     for pid in ALL:
